@@ -19,13 +19,14 @@
     proved here:  - the verdict does not depend on pi                         (C04_accept_deterministic)
                   - accepted <-> every rule group silent                      (C04_accepted_iff_rules_silent)
                   - rule group <-> specification section, for 5.7 (directives), 5.5.1 (fragment
-                    declarations), 5.4 (arguments), 5.6 (values), each in both directions
+                    declarations), 5.4 (arguments), 5.6 (values), 5.2.1.1 / 5.2.2.1 / root types
+                    (operations), each in both directions
                     (the C04_rule_..._iff theorems), and what this gives for the pipeline        (C04_validate_verdict_partial,
                                                                                C04_violation_rejected_partial)
                   - the cycle search of 5.5.2.2 and the work list of 5.8 against order-free
                     characterisations                                         (C04_cycle_search_iff, C04_variables_rule_iff)
                   - the secondary-error filter                                (the C04_filter_... theorems), NewTypeInfo total
-    NOT proved (stage 2): the equivalences for 5.2 (operations), 5.3 (fields, in particular
+    NOT proved (stage 2): the equivalences for 5.2.3.1 (subscription root), 5.3 (fields, in particular
     FieldsInSetCanMerge / SameResponseShape), 5.5.2 (spreads against the Spec's formulation), 5.8
     (variables against the Spec's formulation), hence validate_verdict itself; that no secondary error
     is ever emitted without a primary one (secondary_never_alone); validate_error_located.  These are
@@ -33,7 +34,7 @@
 From Coq Require Import List NArith.
 From ApiFu Require Import Base.Sexp Vld.Ast Vld.Inspect Vld.TypeInfoModel Vld.TypeInfoPure Vld.ValidatorModel Vld.ValidSpec
      Vld.Hyps Vld.ProofsCommon Vld.ProofsDirectives Vld.ProofsArguments Vld.ProofsFragDecl Vld.ProofsValues
-     Vld.ProofsCycles Vld.ProofsVarsOrder Vld.ProofsOrder Vld.ValidatorProofs Vld.Witness.
+     Vld.ProofsCycles Vld.ProofsVarsOrder Vld.ProofsOrder Vld.ProofsOperations Vld.ValidatorProofs Vld.Witness.
 Import ListNotations.
 
 (** ** determinism: acceptance is a function of schema, features and document alone *)
@@ -80,6 +81,16 @@ Proof. exact rule_directives_iff. Qed.
 Theorem C04_rule_fragment_declarations_iff : forall pi, order_ok pi -> forall S F D,
   rule_fragment_declarations pi S F (pti_doc (q_unwrap_obj repaired) S F D) = [] <-> valid_5_5_1 S F D = true.
 Proof. exact rule_fragment_declarations_iff. Qed.
+
+(** 5.2.1.1, 5.2.2.1 (operation names unique, an anonymous operation is alone) and root types: the
+    rule is silent iff they hold and every subscription collects exactly one response name — the last
+    clause (5.2.3.1) still in the model's own terms ([sub_ok]: addFieldSelections succeeds with one
+    entry); its equivalence with the Spec's CollectFields belongs to the stage-2 work on 5.3.2 *)
+Theorem C04_rule_operations_iff_partial : forall S F D,
+  rule_operations repaired (pti_doc (q_unwrap_obj repaired) S F D) = Done [] <->
+  valid_5_2_1_1 D = true /\ valid_5_2_2_1 D = true /\ valid_root S D = true /\
+  forall d, In d D -> sub_ok repaired (pti_doc (q_unwrap_obj repaired) S F D) (pti_def (q_unwrap_obj repaired) S F d) = true.
+Proof. exact rule_operations_iff. Qed.
 
 (** 5.4.1, 5.4.2, 5.4.2.1 (argument names, uniqueness, required arguments): a primary error iff a
     violation, when every field and directive the arguments are given to is defined *)
@@ -137,6 +148,11 @@ Theorem C04_validate_verdict_partial : forall pi S F D,
   (schema_ok S = true -> values_typed_input S F D = true -> valid_5_6 S F D = true).
 Proof. exact accepted_rules_hold. Qed.
 
+Theorem C04_accepted_operations_hold : forall pi S F D,
+  validate_model repaired pi S F D = Done [] ->
+  valid_5_2_1_1 D = true /\ valid_5_2_2_1 D = true /\ valid_root S D = true.
+Proof. exact accepted_operations_hold. Qed.
+
 (** a violation of one of these sections -> rejected *)
 Theorem C04_violation_rejected_partial : forall pi S F D,
   order_ok pi ->
@@ -168,6 +184,8 @@ Print Assumptions C04_filter_nil.
 Print Assumptions C04_filter_secondary_only_without_primary.
 Print Assumptions C04_rule_directives_iff.
 Print Assumptions C04_rule_fragment_declarations_iff.
+Print Assumptions C04_rule_operations_iff_partial.
+Print Assumptions C04_accepted_operations_hold.
 Print Assumptions C04_rule_arguments_iff.
 Print Assumptions C04_rule_values_iff.
 Print Assumptions C04_coercion_agrees.
